@@ -549,6 +549,52 @@ class ExternalVarsVisitor(ast.NodeVisitor):
                 local_path=local_dep_path, path=path, sig=sig
             )
 
+    def visit_Attribute(self, node: ast.Attribute) -> Any:
+        # A variable of an accepted module that is read through the module (for instance 'config.THRESHOLD')
+        # is tracked like a variable that is read by its bare name.
+        names = _attribute_chain(node)
+        if (
+            names is not None
+            and isinstance(node.ctx, ast.Load)
+            and names[0] not in self._local_vars
+        ):
+            local_dep_path = LocalDepPath(PurePosixPath("/".join(names)))
+            if (
+                local_dep_path not in self.vars
+                and local_dep_path not in self._rejected_paths
+            ):
+                res: ObjectRetrievalType
+                try:
+                    res = ObjectRetrieval.retrieve_object(
+                        local_dep_path, self._start_mod, self._gctx
+                    )
+                except DDSException:
+                    res = None
+                obj = res.object_val if isinstance(res, AuthorizedObject) else None
+                if (
+                    isinstance(res, AuthorizedObject)
+                    and not isinstance(obj, (FunctionType, ModuleType))
+                    and not inspect.isclass(obj)
+                ):
+                    sig = self._gctx.get_hash(res.resolved_path, obj)
+                    self.vars[local_dep_path] = ExternalDep(
+                        local_path=local_dep_path, path=res.resolved_path, sig=sig
+                    )
+                else:
+                    self._rejected_paths.add(local_dep_path)
+        # The names that compose the attribute are visited as before.
+        self.generic_visit(node)
+
+
+def _attribute_chain(node: ast.AST) -> Optional[List[str]]:
+    """['a', 'b', 'c'] for the expression a.b.c, None for anything else"""
+    if isinstance(node, ast.Name):
+        return [node.id]
+    if isinstance(node, ast.Attribute):
+        head = _attribute_chain(node.value)
+        return None if head is None else head + [node.attr]
+    return None
+
 
 class LocalVarsVisitor(ast.NodeVisitor):
     """
